@@ -216,6 +216,16 @@ def py_rhs(r):
     if 'scalar' in r: return r['scalar']
     return np.array(r['flat'], dtype=_DT_RHS[r['dtype']]).reshape(r['shape'])
 
+@op('reshape_plaincomma')
+class _:
+    # a PLAIN axis whose name holds a comma (what point-wise selection along two dimensions returns), then a reshape that moves
+    # or adds a dimension: reshape takes a special path for such names
+    def run(a, ins, d, how):
+        b = a.copy(); b.axes[d].name = b.axes[d].name + ',k'
+        if how == 'reverse': return b.reshape(*b.dims[::-1])
+        return b.reshape(*(b.dims + ('newd',)))
+    def coq(d, how): raise Unsupported('reshape of a plain comma-named axis is checked by the oracle only')
+
 @op('get_ndmask')
 class _:
     # a boolean mask of the full shape of an n-d array: the selected cells along ONE axis whose labels are coordinate tuples
